@@ -33,6 +33,7 @@ type ATWorld struct {
 	coord      *Coord
 	tableSeq   int
 	nameFrom   *ATWorld // the world whose counter names this world's tables (nil: its own)
+	Tag        string   // "" (the first data source), "b", "c"
 }
 
 var (
@@ -70,31 +71,43 @@ func GetATWorld() *ATWorld {
 }
 
 var (
-	atWorldB     *ATWorld
-	atWorldBOnce sync.Once
+	atWorldB, atWorldC         *ATWorld
+	atWorldBOnce, atWorldCOnce sync.Once
 )
 
+func openExtraWorld(a *ATWorld, tag, host, dbName string, step int64) *ATWorld {
+	eng := memdb.New(dbName)
+	if step > 1 {
+		eng.SetAutoIncStep(step)
+	}
+	eng.CreateUndoLogTable()
+	sql2.VerifRegisterDrivers("verif-at-"+tag, "verif-xa-"+tag, eng.Driver())
+	res := "root:pw@tcp(" + host + ":3306)/" + dbName
+	db, err := sql.Open("verif-at-"+tag, res+"?multiStatements=true")
+	if err != nil {
+		panic(err)
+	}
+	if err = db.Ping(); err != nil {
+		panic(fmt.Sprintf("at-%s ping: %v", tag, err))
+	}
+	return &ATWorld{Eng: eng, DB: db, Bare: sql.OpenDB(eng.Connector()), coord: a.coord, DBName: dbName, ResourceID: res, nameFrom: a, Tag: tag}
+}
+
 // GetATWorldB opens a SECOND AT data source of the same process: another server (its own engine, with
-// auto_increment_increment = 2) holding another schema, behind its own proxy driver and resource id.
-// Table names are drawn from world A's counter, so no name is used on both servers.
+// auto_increment_increment = 2) whose database has the SAME name as the first one's (as the shards of one
+// logical database do), behind its own proxy driver and resource id.  Table names are drawn from world
+// A's counter, so no table name is used on two servers.
 func GetATWorldB() *ATWorld {
 	a := GetATWorld()
-	atWorldBOnce.Do(func() {
-		eng := memdb.New("verifdb_b")
-		eng.SetAutoIncStep(2)
-		eng.CreateUndoLogTable()
-		sql2.VerifRegisterDrivers("verif-at-b", "verif-xa-b", eng.Driver())
-		db, err := sql.Open("verif-at-b", "root:pw@tcp(127.0.0.2:3306)/verifdb_b?multiStatements=true")
-		if err != nil {
-			panic(err)
-		}
-		if err = db.Ping(); err != nil {
-			panic(fmt.Sprintf("at-b ping: %v", err))
-		}
-		atWorldB = &ATWorld{Eng: eng, DB: db, Bare: sql.OpenDB(eng.Connector()), coord: a.coord, DBName: "verifdb_b",
-			ResourceID: "root:pw@tcp(127.0.0.2:3306)/verifdb_b", nameFrom: a}
-	})
+	atWorldBOnce.Do(func() { atWorldB = openExtraWorld(a, "b", "127.0.0.2", "verifdb", 2) })
 	return atWorldB
+}
+
+// GetATWorldC opens a THIRD data source: another server, a database with another name.
+func GetATWorldC() *ATWorld {
+	a := GetATWorld()
+	atWorldCOnce.Do(func() { atWorldC = openExtraWorld(a, "c", "127.0.0.3", "verifdb_c", 1) })
+	return atWorldC
 }
 
 // OpenXA opens the XA-proxied handle lazily (its resource registers separately).
